@@ -499,8 +499,10 @@ Fixpoint mock_calls (m : mock) (cs : list api_call) : option mock :=
 
 (* ---------- expectOutcome parsing (prepare.py:216-239 through
    predicate_to_koreo_result with "assert": true added) ----------
-   spec is the (non-empty) expectOutcome object; result: None = raises
-   (int() of a non-integer delay text), Some None = `ok`, Some (Some o).
+   spec is the (non-empty) expectOutcome object; result: PRejected = the test
+   case is rejected with a PermFail (int() of a non-integer delay text raises
+   ValueError, which _prepare_test_case reports since the repair "FunctionTest
+   values CEL cannot represent are reported, not raised"), PExpect None = `ok`.
    The match arms are tried in the order ok, depSkip, skip, retry, permFail;
    each needs the named key to hold a mapping with the listed keys. *)
 Definition has_map (k : string) (spec : list (string * json)) : option (list (string * json)) :=
@@ -519,7 +521,7 @@ Definition msg_text (v : json) : option string :=
   end.
 
 Inductive parsed :=
-| PRaises | PUnmodelled | PUnknown               (* PUnknown: PermFail("Unknown predicate type…") *)
+| PRejected | PUnmodelled | PUnknown             (* PUnknown: PermFail("Unknown predicate type…") *)
 | PExpect (e : option (outcome json)).
 
 Definition expect_outcome_of (spec : list (string * json)) : parsed :=
@@ -541,7 +543,7 @@ Definition expect_outcome_of (spec : list (string * json)) : parsed :=
       | JInt z => match msg_text msg with
                   | Some s => PExpect (Some (Retry z (Some s) None))
                   | None => PUnmodelled end
-      | JBool _ | JNull | JFloat _ _ | JList _ | JMap _ => PRaises   (* int("True"/"None"/"5.0"/…) *)
+      | JBool _ | JNull | JFloat _ _ | JList _ | JMap _ => PRejected (* int("True"/"None"/"5.0"/…): ValueError *)
       | JStr _ => PUnmodelled
       end
   | None =>
